@@ -50,12 +50,15 @@ struct Monitors {
 };
 Monitors &mon();
 
-// silence std::cout / capture std::cerr for the duration of a run
+// silence (or capture) std::cout and capture std::cerr for the duration of a run
 struct Silence {
   std::streambuf *old_out, *old_err;
-  std::ostringstream err;
+  std::ostringstream err, out;
   struct NullBuf : std::streambuf { int overflow(int c) override { return c; } std::streamsize xsputn(const char *, std::streamsize n) override { return n; } } nb;
-  Silence() { old_out = std::cout.rdbuf(&nb); old_err = std::cerr.rdbuf(err.rdbuf()); }
+  explicit Silence(bool capture_out = false) {
+    old_out = std::cout.rdbuf(capture_out ? out.rdbuf() : static_cast<std::streambuf *>(&nb));
+    old_err = std::cerr.rdbuf(err.rdbuf());
+  }
   ~Silence() { std::cout.rdbuf(old_out); std::cerr.rdbuf(old_err); }
 };
 
